@@ -105,6 +105,11 @@ void runRejectCase(Reporter &R, const std::string &cls, const std::vector<Cell<G
                     VertexIndex bad = bv == 0 ? n : bv == 1 ? n + 1 : UINT_MAX;
                     VertexIndex bad2 = bv == 0 ? n + 1 : bv == 1 ? UINT_MAX : n;
                     VertexIndex ok = n ? r.u(n) : 0;
+                    if (n && r.chance(1, 2)) { // the vertex with the longest neighbour list (fast paths for hubs)
+                        size_t best = 0;
+                        for (VertexIndex v = 0; v < n; ++v)
+                            if (g.getOutNeighbours(v).size() > best) { best = g.getOutNeighbours(v).size(); ok = v; }
+                    }
                     VertexIndex a, b;
                     if (c.arity == 1) { a = bad; b = 0; }
                     else if (pos == 0) { a = bad; b = ok; }
